@@ -211,6 +211,38 @@ impl<O: Observer<Val, Val> + Send + 'static> Observable<Val, Val, O> for RelayT 
 }
 impl ObservableExt<Val, Val> for RelayT {}
 
+/// the same for a source that is not Clone
+pub struct RelayG<S>(pub S);
+impl<S, O: Observer<Val, Val> + 'static> Observable<Val, Val, O> for RelayG<S>
+where
+  S: Observable<Val, Val, Subject<'static, Val, Val>> + ObservableExt<Val, Val>,
+  S::Unsub: 'static,
+{
+  type Unsub = ZipSubscription<Subscriber<O>, S::Unsub>;
+  fn actual_subscribe(self, observer: O) -> Self::Unsub {
+    let c = self.0.publish::<Subject<'static, Val, Val>>();
+    let u1 = c.fork().actual_subscribe(observer);
+    let u2 = c.connect();
+    ZipSubscription::new(u1, u2)
+  }
+}
+impl<S> ObservableExt<Val, Val> for RelayG<S> {}
+pub struct RelayGT<S>(pub S);
+impl<S, O: Observer<Val, Val> + Send + 'static> Observable<Val, Val, O> for RelayGT<S>
+where
+  S: Observable<Val, Val, SubjectThreads<Val, Val>> + ObservableExt<Val, Val>,
+  S::Unsub: Send + 'static,
+{
+  type Unsub = ZipSubscription<SubscriberThreads<O>, S::Unsub>;
+  fn actual_subscribe(self, observer: O) -> Self::Unsub {
+    let c = self.0.publish::<SubjectThreads<Val, Val>>();
+    let u1 = c.fork().actual_subscribe(observer);
+    let u2 = c.connect();
+    ZipSubscription::new(u1, u2)
+  }
+}
+impl<S> ObservableExt<Val, Val> for RelayGT<S> {}
+
 macro_rules! catalogue {
   ($fname:ident, $obs:ty, $finalize:ident, $relay:ident) => {
     pub fn $fname(op: Op, src: $obs, p: &P) -> $obs {
